@@ -232,10 +232,22 @@ def check_pair(ctx, x, y, ts):
                                   "unbounded window", dict(k2, factor=kk), {})
         # coincidence rates
         if len(ex) >= 1 and len(ey) >= 1:
-            tme = rng.choice([0, 1, 2, 5])
-            lage = rng.choice([0, 1, 2])
+            tme = rng.choice([0, 0, 1, 2, 5])
+            lage = rng.choice([0, 0, 1, 2, -1])
             r = [float(v) for v in E.event_coincidence_analysis(
                 x, y, tme, ts1=t, ts2=t, lag=lage)]
+            want = ref_eca_static(np.asarray(t)[np.asarray(x) == 1],
+                                  np.asarray(t)[np.asarray(y) == 1],
+                                  tme, lage)
+            if not all((math.isnan(p) and math.isnan(q))
+                       or (math.isinf(p) and math.isinf(q))
+                       or close(p, q, 1e-6) for p, q in zip(r, want)):
+                ctx.violation("EventSeries.event_coincidence_analysis",
+                              "differs from the counting formula (events "
+                              "with a partner in [lag, lag + taumax] over "
+                              "the events not excluded at the boundary)",
+                              dict(key, taumax=tme, lag=lage, got=r,
+                                   want=want), {})
             r2 = [float(v) for v in E.event_coincidence_analysis(
                 y, x, tme, ts1=t, ts2=t, lag=lage)]
             k3 = dict(key, taumax=tme, lag=lage)
@@ -257,6 +269,37 @@ def check_pair(ctx, x, y, ts):
                 ctx.violation("EventSeries.event_coincidence_analysis",
                               "changes under a common time shift", k3, {})
     ctx.sample(key)
+
+
+def ref_eca_static(e1, e2, taumax, lag):
+    """[precursor XY, trigger XY, precursor YX, trigger YX] by plain counting;
+    the first / last events closer than lag + taumax to the ends of their
+    series are excluded, none in the instantaneous case lag = taumax = 0"""
+    e1, e2 = [float(v) for v in e1], [float(v) for v in e2]
+    l1, l2 = len(e1), len(e2)
+    if lag == 0 and taumax == 0:
+        n11 = n12 = n21 = n22 = 0
+    else:
+        n11 = sum(1 for v in e1 if v <= e1[0] + lag + taumax)
+        n12 = sum(1 for v in e1 if v >= e1[-1] - lag - taumax)
+        n21 = sum(1 for v in e2 if v <= e2[0] + lag + taumax)
+        n22 = sum(1 for v in e2 if v >= e2[-1] - lag - taumax)
+
+    def hit(a, b):          # b precedes a by lag .. lag + taumax
+        return 0 <= a - b - lag <= taumax
+    p12 = sum(1 for i in range(n11, l1) if any(hit(e1[i], b) for b in e2))
+    t12 = sum(1 for j in range(0, l2 - n22) if any(hit(a, e2[j])
+                                                   for a in e1))
+    p21 = sum(1 for j in range(n21, l2) if any(hit(e2[j], a) for a in e1))
+    t21 = sum(1 for i in range(0, l1 - n12) if any(hit(b, e1[i])
+                                                   for b in e2))
+
+    def div(a, b):
+        if b == 0:
+            return float("nan") if a == 0 else float("inf")
+        return a / b
+    return [div(p12, l1 - n11), div(t12, l2 - n22), div(p21, l2 - n21),
+            div(t21, l1 - n12)]
 
 
 def ref_eca_rate(e1, e2, taumax, lag, window):
